@@ -59,6 +59,7 @@ struct LimitGrid : GridBase {
   std::vector<uintmax_t> fills() {
     std::vector<uintmax_t> f;
     uintmax_t L = limit();
+    if (kWide) { f.push_back(1); f.push_back(3); if (I::kSmall) f.push_back(I::kN + 1); return f; }
     if (L <= 8) { for (uintmax_t i = 0; i <= L; ++i) f.push_back(i); }
     else {
       f.push_back(0); f.push_back(1);
@@ -71,6 +72,15 @@ struct LimitGrid : GridBase {
     std::vector<uintmax_t> c;
     if (single) { c.push_back(1); return c; }
     uintmax_t L = limit();
+    if (kWide) {  // only counts with size + count > max(size_type)
+      c.push_back(stmax());
+      c.push_back(stmax() - 1);
+      c.push_back(stmax() - size + 1);
+      c.push_back(stmax() - size + 2);
+      std::sort(c.begin(), c.end());
+      c.erase(std::unique(c.begin(), c.end()), c.end());
+      return c;
+    }
     for (uintmax_t t = (L > 1 ? L - 1 : 0); t <= L + 3; ++t)
       if (t >= size && t - size <= stmax()) c.push_back(t - size);
     c.push_back(0);
@@ -95,8 +105,13 @@ struct LimitGrid : GridBase {
     }
   }
 
+  // 32-bit (and wider) size types: only the calls whose count argument can push size()+count beyond the maximum are meaningful, and only their
+  // exceeding side can be executed (the fitting side would need gigabytes). The expected verdict is still computed in uintmax_t by the harness.
+  static constexpr bool kWide = sizeof(SizeT) >= 4 && !I::kFixed;
+
   void run_op(int op, long idx) {
     begin_history(0, idx, 0xC08);
+    if (kWide && !(op == L_INSERT_N || op == L_APPEND_N || op == L_APPEND_NV)) { end_history_ok(); return; }
     const bool is_ctor = op >= L_CTOR_N && op <= L_CTOR_IL;
     const bool single = op <= L_INSERT_M;
     const bool uses_pos = op == L_EMPLACE || (op >= L_INSERT_C && op <= L_INSERT_IL);
@@ -105,6 +120,7 @@ struct LimitGrid : GridBase {
     for (size_t fi = 0; fi < fl.size() && !g_cut; ++fi) {
       uintmax_t size = fl[fi];
       for (int spare = 0; spare < (I::kFixed || is_ctor ? 1 : 3) && !g_cut; ++spare) {
+        if (kWide && spare == 1) continue;  // reserving up to the maximum of a 32-bit size_type is not possible
         std::vector<uintmax_t> cs = op == L_AT ? std::vector<uintmax_t>{0, 1, stmax() > size ? stmax() - size : 0} : counts(size, single);
         uintmax_t posc[] = {0, 1, size / 2, size ? size - 1 : 0, size};
         std::vector<uintmax_t> ps;
@@ -137,6 +153,7 @@ struct LimitGrid : GridBase {
     uintmax_t arg = total_form ? size + c : c;  // the number passed to the call
     if (arg > stmax() && !(op == L_INSERT_RANGE || op == L_ASSIGN_RANGE || op == L_APPEND_RANGE || op == L_CTOR_RANGE)) { destroy(b); cell_end<E>("C08"); --n_cells; return; }
     if (op == L_AT && size + c > stmax()) { destroy(b); cell_end<E>("C08"); --n_cells; return; }
+    if (kWide && result <= limit()) { destroy(b); cell_end<E>("C08"); --n_cells; return; }
     bool fits = result <= limit();
     if (op == L_RESERVE) fits = arg <= limit();
     if (op == L_AT) fits = false;
